@@ -191,3 +191,73 @@ func harnessC04Concurrent() {
 	vAssert(cnt == 3-fired, "once-counted-until-fired-only")
 	vCover("raced")
 }
+
+//verif:entry property=C04 tier=both bounds="chain of one-shots: a Once handler (sync/async) that, when it fires, subscribes the next Once handler, an ordinary handler, or nothing - the next one likewise; P publishes of the type, each through Publish[T] or through Publish[any] with the event as an interface value; after every publish (and Wait) each handler's invocation count and HandlerCount are compared with the reference" cover="chained" P_quick=3 P_thorough=4
+func harnessC04Chain() {
+	P := vParam("P", 3)
+	bus := New()
+	type hs struct {
+		once       bool
+		registered int // index of the publish during which it was subscribed (-1: before the first)
+		got        int
+	}
+	hsT := [3]*hs{{once: true, registered: -1}, nil, nil}
+	cur := 0 // index of the publish in progress
+	async0 := vBool()
+	what0 := vPick(3) // handler 0, when it fires: 0 nothing, 1 subscribes Once handler 1, 2 subscribes ordinary handler 1
+	what1 := vPick(3) // handler 1 likewise with handler 2
+	var mk func(i int) func(evA)
+	mk = func(i int) func(evA) {
+		return func(e evA) {
+			hsT[i].got++
+			w := what0
+			if i == 1 {
+				w = what1
+			}
+			if i < 2 && w != 0 && hsT[i+1] == nil {
+				hsT[i+1] = &hs{once: w == 1, registered: cur}
+				if w == 1 {
+					vAssert(Subscribe(bus, mk(i+1), Once()) == nil, "subscribe-ok")
+				} else {
+					vAssert(Subscribe(bus, mk(i+1)) == nil, "subscribe-ok")
+				}
+			}
+		}
+	}
+	so := []SubscribeOption{Once()}
+	if async0 {
+		so = append(so, Async())
+	}
+	vAssert(Subscribe(bus, mk(0), so...) == nil, "subscribe-ok")
+	for cur = 0; cur < P; cur++ {
+		if vBool() {
+			Publish[any](bus, evA{N: cur})
+		} else {
+			Publish(bus, evA{N: cur})
+		}
+		bus.Wait()
+		count := 0
+		for _, h := range hsT {
+			if h == nil {
+				continue
+			}
+			since := cur - h.registered // publishes that began after it was subscribed
+			if h.once {
+				want := 0
+				if since >= 1 {
+					want = 1
+				}
+				vAssert(h.got == want, "once-fires-exactly-once-on-the-first-publish-after-subscription")
+				if since < 1 {
+					count++
+				}
+			} else {
+				vAssert(h.got == since, "ordinary-handler-gets-every-later-event-once")
+				count++
+			}
+		}
+		vAssert(HandlerCount[evA](bus) == count, "once-counted-until-fired-only")
+		vAssert(HasHandlers[evA](bus) == (count > 0), "once-counted-until-fired-only")
+	}
+	vCover("chained")
+}
